@@ -169,7 +169,7 @@ fn build_case<const MIN: usize>(rep: &mut Report, rng: &mut Rng) {
 /// query entry points: trace of (x, target shape), error propagation, failure at every index
 fn query_case(rep: &mut Report, rng: &mut Rng, kz: usize) {
     let n = rng.range(2, 5) as usize;
-    let trail: Vec<usize> = match rng.below(5) { 0 => vec![], 1 => vec![2], 2 => vec![2, 3], 3 => vec![1], _ => vec![3, 1, 2] };
+    let trail: Vec<usize> = match rng.below(8) { 0 => vec![], 1 => vec![2], 2 => vec![2, 3], 3 => vec![1], 4 => vec![0], 5 => vec![4, 0], 6 => vec![0, 2], _ => vec![3, 1, 2] };
     let mut shape = vec![n];
     shape.extend_from_slice(&trail);
     let total: usize = shape.iter().product();
@@ -286,7 +286,7 @@ fn query_case(rep: &mut Report, rng: &mut Rng, kz: usize) {
 fn two_d_case(rep: &mut Report, rng: &mut Rng) {
     let nx = rng.range(2, 4) as usize;
     let ny = rng.range(2, 4) as usize;
-    let trail: Vec<usize> = match rng.below(3) { 0 => vec![], 1 => vec![2], _ => vec![2, 2] };
+    let trail: Vec<usize> = match rng.below(4) { 0 => vec![], 1 => vec![2], 2 => vec![0], _ => vec![2, 2] };
     let mut shape = vec![nx, ny];
     shape.extend_from_slice(&trail);
     let total: usize = shape.iter().product();
